@@ -108,25 +108,72 @@ class Sim:
                 out.append(o2)
         return out
 
-    def judge(self, programs: dict, res: dict, hs_ref: int, idhash_other: int, ref0_budget=3, pick=None) -> list[dict]:
-        """Oracles for one executed history.
-        1. isolated-own-history reference: every observation of program P must equal what P's
-           own ops alone produce in a pristine process under another hash seed and other
-           object hashes (clauses 1 and 3: unrelated programs, failures, aborts, seeds).
-        2. fresh-process reference: what a pristine process produces for P's recipe compiled
-           ONCE with these options (headline + clauses 2, 4), for a seeded sample of the
-           observations that have own history before them.
-        3. self-consistency: equal (P, options, configuration) => equal outcome."""
-        viols = []
+    @staticmethod
+    def _viol(hist, via, ob, ref):
+        return {
+            "oracle": "fresh-process-reference",
+            "via": via,
+            "kind": mismatch_kind(ob["outcome"], ref),
+            "p": ob["p"],
+            "op_index": ob["i"],
+            "opts": ob["opts"],
+            "tie": bool(ob.get("tie")),
+            "observed": ob["outcome"],
+            "reference": ref,
+            "hist": hist,
+        }
+
+    def judge(self, hist: dict, res: dict, ref0_budget=3, pick=None, full=False) -> list[dict]:
+        """Oracle for one executed history `hist` = {programs, ops, hashseed, hashseed_ref,
+        idhash_seed}.  The specification is C11 itself: every observed compile of program P with
+        options o must equal REF(P, o) = what a pristine process (other hash seed, natural object
+        hashes) produces when it builds P's recipe alone and compiles it once with o.
+
+        Computing REF for every observation would triple the fork count, so two cheap filters
+        select the observations that get a reference (with full=True all of them do):
+          * isolated-own-history filter: P's own ops alone are re-executed in a pristine process
+            under the other hash seed and other object hashes; an observation that differs from
+            its isolated twin gets references for both (the isolated history is itself a legal
+            history, so it is judged too);
+          * self-consistency filter: equal (P, options, configuration) but different outcome.
+        Observations that pass both filters and have own history before them are sampled
+        (ref0_budget per run, seeded)."""
+        viols: list[dict] = []
+        programs = hist["programs"]
         ops = res["resolved_ops"]
+        hs_ref = hist["hashseed_ref"]
         by_p: dict = {}
         for ob in res["observations"]:
             by_p.setdefault(ob["p"], []).append(ob)
-        ref0_cands = []
+        done: set = set()
+
+        def check(h, via, ob, hs):
+            key = (id(h), ob["i"])
+            if key in done:
+                return
+            done.add(key)
+            ref = self.reference(hs, programs[ob["p"]], ob)
+            if outcome_key(ob["outcome"]) != outcome_key(ref):
+                viols.append(self._viol(h, via, ob, ref))
+
+        if full:
+            for ob in res["observations"]:
+                check(hist, "direct", ob, hs_ref)
+            return viols
+
+        cands = []
         for pid in [p for p in programs if p in by_p]:
             obs = by_p[pid]
             iops = self.iso_ops(ops, pid)
-            iso = self.execute(hs_ref, {pid: programs[pid]}, iops, idhash_other)
+            ihist = {
+                "programs": {pid: programs[pid]},
+                "ops": iops,
+                "hashseed": hs_ref,
+                "hashseed_ref": hist["hashseed"],
+                "idhash_seed": hist["idhash_seed"] ^ 0x5DEECE66D,
+                "derived_from": "isolated own history of " + pid,
+            }
+            iso = self.execute(hs_ref, ihist["programs"], iops, ihist["idhash_seed"])
             self.iso_jobs += 1
             iso_by_i = {o["i"]: o for o in iso["observations"]}
             first_own = None
@@ -136,85 +183,90 @@ class Sim:
                     break
             for ob in obs:
                 io = iso_by_i.get(ob["i"])
-                if io is None:
-                    viols.append(
-                        {"oracle": "isolated-own-history-reference", "kind": "observation-missing-in-isolation", "p": pid,
-                         "op_index": ob["i"], "opts": ob["opts"], "tie": ob.get("tie", False), "observed": ob["outcome"], "reference": None}
-                    )
-                    continue
-                if outcome_key(ob["outcome"]) != outcome_key(io["outcome"]):
-                    viols.append(
-                        {
-                            "oracle": "isolated-own-history-reference",
-                            "kind": mismatch_kind(ob["outcome"], io["outcome"]),
-                            "p": pid,
-                            "op_index": ob["i"],
-                            "opts": ob["opts"],
-                            "tie": bool(ob.get("tie") or io.get("tie")),
-                            "observed": ob["outcome"],
-                            "reference": io["outcome"],
-                        }
-                    )
+                if io is None or outcome_key(ob["outcome"]) != outcome_key(io["outcome"]):
+                    check(hist, "isolated-filter", ob, hs_ref)
+                    if io is not None:
+                        check(ihist, "isolated-filter", io, hist["hashseed"])
                 elif ob["i"] != first_own:
-                    ref0_cands.append((ob, io))
-        # self-consistency
+                    cands.append(ob)
+        # self-consistency filter
         seen: dict = {}
         for ob in res["observations"]:
             k = jdigest([ob["p"], ob["opts"], ob["nsteps"], ob["gate_compile"], ob.get("algod")])
             if k in seen and outcome_key(seen[k]["outcome"]) != outcome_key(ob["outcome"]):
-                viols.append(
-                    {
-                        "oracle": "self-consistency",
-                        "kind": "repeat-differs",
-                        "p": ob["p"],
-                        "op_index": ob["i"],
-                        "opts": ob["opts"],
-                        "tie": ob.get("tie", False),
-                        "observed": ob["outcome"],
-                        "reference": seen[k]["outcome"],
-                        "earlier_op_index": seen[k]["i"],
-                    }
-                )
+                check(hist, "self-consistency-filter", seen[k], hs_ref)
+                check(hist, "self-consistency-filter", ob, hs_ref)
             seen.setdefault(k, ob)
-        # fresh-process reference on a sample
-        if pick is not None and ref0_budget is not None and len(ref0_cands) > ref0_budget:
-            ref0_cands = pick.sample(ref0_cands, ref0_budget)
-        for ob, io in ref0_cands:
-            ref = self.reference(hs_ref, programs[ob["p"]], ob)
-            if outcome_key(ob["outcome"]) != outcome_key(ref):
-                viols.append(
-                    {
-                        "oracle": "fresh-process-reference",
-                        "kind": mismatch_kind(ob["outcome"], ref),
-                        "p": ob["p"],
-                        "op_index": ob["i"],
-                        "opts": ob["opts"],
-                        "tie": bool(ob.get("tie") or io.get("tie")),
-                        "observed": ob["outcome"],
-                        "reference": ref,
-                        "own_history_only": True,
-                    }
-                )
+        # sampled references
+        if pick is not None and ref0_budget is not None and len(cands) > ref0_budget:
+            cands = pick.sample(cands, ref0_budget)
+        for ob in cands:
+            check(hist, "sampled", ob, hs_ref)
         return viols
+
+    # ------------------------------------------------------------------ known finding D3
+    def explained_by_own_declaration_cache(self, v: dict) -> bool:
+        """Causal test for finding D3: re-execute the violating history with the harness patch
+        that drops, at the end of each compile/probe call of program P, the subroutine
+        declarations that call evaluated and cached (world.Forget).  True iff the deviation is a
+        pure TEAL difference without slot-id ties and the patched history produces exactly the
+        fresh-process reference for this observation."""
+        if v["kind"] != "teal-differs" or v.get("tie"):
+            return False
+        h = v["hist"]
+        job = {
+            "kind": "run",
+            "programs": h["programs"],
+            "ops": h["ops"],
+            "idhash_seed": h["idhash_seed"],
+            "forget_decls_for": v["p"],
+            "timeout": 120,
+        }
+        res = self.pool.call(h["hashseed"], job)
+        if not res.get("decls_dropped"):
+            return False
+        for ob in res["observations"]:
+            if ob["i"] == v["op_index"] and ob["p"] == v["p"]:
+                return outcome_key(ob["outcome"]) == outcome_key(v["reference"]) and not ob.get("tie")
+        return False
 
     # ------------------------------------------------------------------ one run
     def run_seed(self, seed: int, cfg: dict) -> dict:
         plan = gen.gen_plan(seed, cfg)
         hs_run, hs_ref = self.hashseeds_for(seed)
         res = self.execute(hs_run, plan["programs"], plan["ops"], plan["idhash_seed"])
+        hist = {
+            "programs": plan["programs"],
+            "ops": res["resolved_ops"],
+            "hashseed": hs_run,
+            "hashseed_ref": hs_ref,
+            "idhash_seed": plan["idhash_seed"],
+        }
         pick = gen.sub_rng(seed, "ref0")
-        viols = self.judge(
-            plan["programs"], res, hs_ref, plan["idhash_seed"] ^ 0x5DEECE66D, cfg.get("ref0_budget", 3), pick
-        )
-        return {"seed": seed, "plan": plan, "res": res, "viols": viols, "hs": [hs_run, hs_ref]}
+        viols = self.judge(hist, res, cfg.get("ref0_budget", 3), pick)
+        return {"seed": seed, "plan": plan, "res": res, "viols": viols, "hs": [hs_run, hs_ref], "hist": hist}
 
     # ------------------------------------------------------------------ replay
+    @staticmethod
+    def hist_of_replay(rp: dict) -> dict:
+        return {
+            "programs": rp["programs"],
+            "ops": rp["ops"],
+            "hashseed": rp.get("hashseed", rp.get("hashseed_run")),
+            "hashseed_ref": rp["hashseed_ref"],
+            "idhash_seed": rp["idhash_seed"],
+        }
+
     def replay(self, rp: dict) -> list[dict]:
-        res = self.execute(rp["hashseed_run"], rp["programs"], rp["ops"], rp["idhash_seed"])
-        return self.judge(rp["programs"], res, rp["hashseed_ref"], rp["idhash_seed"] ^ 0x5DEECE66D, None, None)
+        """execute the recorded op list verbatim and compare EVERY observation in it with its
+        fresh-process reference"""
+        h = self.hist_of_replay(rp)
+        res = self.execute(h["hashseed"], h["programs"], h["ops"], h["idhash_seed"])
+        h["ops"] = res["resolved_ops"]
+        return self.judge(h, res, full=True)
 
     # ------------------------------------------------------------------ minimise
-    def minimise(self, rp: dict, target: dict, budget=150) -> dict:
+    def minimise(self, rp: dict, target: dict, budget=150, avoid_known=True) -> dict:
         """ddmin over the resolved op list, then program and fault simplification.  A candidate
         is kept only if the same violation class persists for the same program."""
         sig = (target["oracle"], target["kind"].split(":")[0], target["p"])
@@ -227,7 +279,16 @@ class Sim:
                 vs = self.replay(cand)
             except HarnessError:
                 return False
-            return any((v["oracle"], v["kind"].split(":")[0], v["p"]) == sig for v in vs)
+            for v in vs:
+                if (v["oracle"], v["kind"].split(":")[0], v["p"]) == sig:
+                    # never let the minimiser slide from an unlisted violation into a listed one
+                    try:
+                        if avoid_known and self.explained_by_own_declaration_cache(v):
+                            continue
+                    except HarnessError:
+                        continue
+                    return True
+            return False
 
         def with_ops(ops):
             used = []
@@ -324,49 +385,55 @@ class Sim:
         rp_cur["minimise_tries"] = tries
         return rp_cur
 
-    def report(self, r: dict, cfg: dict, minimise=True) -> dict:
-        """turn a failed run into a (minimised) replay file; returns info incl. path"""
-        v = r["viols"][0]
-        plan, res = r["plan"], r["res"]
+    def report(self, v: dict, seed, cfg_name, minimise=True, out_dir=None, avoid_known=True) -> dict:
+        """turn a violation into a (minimised) replay file; returns info incl. path"""
+        h = v["hist"]
         rp = {
             "property": "C11",
-            "seed": r["seed"],
-            "config": cfg.get("name"),
-            "hashseed_run": r["hs"][0],
-            "hashseed_ref": r["hs"][1],
-            "idhash_seed": plan["idhash_seed"],
-            "programs": plan["programs"],
-            "ops": res["resolved_ops"],
+            "seed": seed,
+            "config": cfg_name,
+            "hashseed": h["hashseed"],
+            "hashseed_ref": h["hashseed_ref"],
+            "idhash_seed": h["idhash_seed"],
+            "programs": h["programs"],
+            "ops": h["ops"],
         }
-        full = dict(rp)
+        if h.get("derived_from"):
+            rp["derived_from"] = h["derived_from"]
+        full_len = len(rp["ops"])
         minimised = False
         if minimise:
             try:
-                m = self.minimise(rp, v)
-                vs = self.replay(m)
+                m = self.minimise(rp, v, avoid_known=avoid_known)
+                vs = [x for x in self.replay(m) if x["p"] == v["p"] and x["kind"].split(":")[0] == v["kind"].split(":")[0]]
                 if vs:
                     rp = m
                     v = vs[0]
                     minimised = True
             except HarnessError:
                 pass
-        rp["violation"] = {k: v[k] for k in v if k not in ("observed", "reference")}
+        rp["violation"] = {k: v[k] for k in v if k not in ("observed", "reference", "hist")}
         rp["observed"] = v.get("observed")
         rp["reference"] = v.get("reference")
         if v.get("observed") and v.get("reference") and v["observed"][0] == "ok" and v["reference"][0] == "ok":
-            rp["diff"] = list(
-                difflib.unified_diff(
-                    (v["reference"][1] or "").split("\n"),
-                    (v["observed"][1] or "").split("\n"),
-                    "reference(fresh process)",
-                    "observed(in history)",
-                    lineterm="",
-                )
-            )[:80]
+            d = []
+            for which, name in ((1, "approval"), (2, "clear")):
+                if (v["reference"][which] or "") != (v["observed"][which] or ""):
+                    d += list(
+                        difflib.unified_diff(
+                            (v["reference"][which] or "").split("\n"),
+                            (v["observed"][which] or "").split("\n"),
+                            f"reference(fresh process) {name}",
+                            f"observed(in history) {name}",
+                            lineterm="",
+                        )
+                    )
+            rp["diff"] = d[:120]
         rp["minimised"] = minimised
-        rp["original_op_count"] = len(full["ops"])
-        os.makedirs(REPLAY_DIR, exist_ok=True)
-        path = os.path.join(REPLAY_DIR, f"C11-{r['seed']}-{v.get('op_index', 0)}.json")
+        rp["original_op_count"] = full_len
+        out_dir = out_dir or REPLAY_DIR
+        os.makedirs(out_dir, exist_ok=True)
+        path = os.path.join(out_dir, f"C11-{seed}-{v.get('op_index', 0)}.json")
         with open(path, "w") as f:
             json.dump(rp, f, indent=1)
         return {"path": path, "violation": rp["violation"], "ops": len(rp["ops"]), "replay": rp}
@@ -469,7 +536,7 @@ class Coverage:
                 )
 
 
-def run_batch(sim: Sim, seeds: list[int], cfg: dict, cov: Coverage, threads=24, deadline=None, stop_on_violation=True):
+def run_batch(sim: Sim, seeds: list[int], cfg: dict, cov: Coverage, threads=24, deadline=None, stop_on_violation=True, on_run=None):
     """returns (violating run dicts, harness error strings)"""
     bad = []
     herrs = []
@@ -483,6 +550,8 @@ def run_batch(sim: Sim, seeds: list[int], cfg: dict, cov: Coverage, threads=24, 
         except HarnessError as e:
             return ("herr", seed, str(e)[:500])
         cov.add(r)
+        if on_run is not None:
+            on_run(r)
         if r["viols"]:
             if stop_on_violation:
                 stop.set()
